@@ -114,7 +114,17 @@ class Fixture:
         self.arch = {}
         g = {}
         g["bz2"] = bz2.compress(self.X, 9)
-        g["gz"] = gzip.compress(self.X, 6, mtime=0)
+        # gzip: the lines before the last one deflated at level 6, the last line (random characters) in stored blocks, so that a
+        # flipped payload byte there leaves a well-formed stream of the same size that only the CRC in the trailer gives away
+        g["gz"] = self._hybrid_gzip(self.X[: self.last_start], self.X[self.last_start :])
+        self.flip_doc_pos = len(self.X) - 20
+        at = g["gz"].rfind(self.X[-40:])  # the last bytes of the document, verbatim in the last stored block
+        self.flip_arch_pos = at + 20
+        if at < 0 or g["gz"][self.flip_arch_pos] != self.X[self.flip_doc_pos] or gzip.decompress(g["gz"]) != self.X:
+            raise tlc.MachineryError("fixture: the stored tail of the gzip archive is not where it is expected")
+        new_byte = b"b" if self.X[self.flip_doc_pos : self.flip_doc_pos + 1] == b"a" else b"a"
+        self.docs["flip"] = self.X[: self.flip_doc_pos] + new_byte + self.X[self.flip_doc_pos + 1 :]
+        self.gz_corrupt = g["gz"][: self.flip_arch_pos] + new_byte + g["gz"][self.flip_arch_pos + 1 :]
         g["zst"] = zstandard.ZstdCompressor(level=3).compress(self.X)
         b = pyio.BytesIO()
         with zipfile.ZipFile(b, "w", zipfile.ZIP_DEFLATED) as z:
@@ -148,17 +158,33 @@ class Fixture:
                 "J": self.other,
                 "E": b"",
             }
-            sizes = [len(v) for v in self.arch[fmt].values()]
+            if fmt == "gz":
+                # C: same size as the genuine archive, one payload byte differs (bit rot / transfer damage): expands to a
+                # document of the right size and line count with wrong content, then fails the CRC check
+                self.arch[fmt]["C"] = self.gz_corrupt
+            sizes = [len(v) for k, v in self.arch[fmt].items() if k != "C"]
             if len(set(sizes)) != len(sizes):
                 raise tlc.MachineryError("fixture: archive classes of %s not distinguishable by size" % fmt)
         # bodies for an uncompressed corpus (the document itself is downloaded)
         self.arch["none"] = {"G": self.X, "Th": self.docs["mid"], "Te": self.docs["last"], "J": self.other, "E": b""}
         self.doc_by_sha = {_sha(v): k for k, v in self.docs.items()}
         self.arch_by_sha = {fmt: {_sha(v): k for k, v in d.items()} for fmt, d in self.arch.items()}
-        self.doc_sizes = {len(v): k for k, v in self.docs.items()}
-        self.arch_sizes = {fmt: {len(v): k for k, v in d.items()} for fmt, d in self.arch.items()}
+        self.doc_sizes = {len(v): k for k, v in self.docs.items() if k != "flip"}
+        self.arch_sizes = {fmt: {len(v): k for k, v in d.items() if k != "C"} for fmt, d in self.arch.items()}
         self._tools()
         self._seek_cache = {}
+
+    @staticmethod
+    def _hybrid_gzip(head, tail):
+        import struct
+        import zlib
+
+        c1 = zlib.compressobj(6, zlib.DEFLATED, -15)
+        data = c1.compress(head) + c1.flush(zlib.Z_FULL_FLUSH)
+        c2 = zlib.compressobj(0, zlib.DEFLATED, -15)
+        data += c2.compress(tail) + c2.flush()
+        whole = head + tail
+        return b"\x1f\x8b\x08\x00\x00\x00\x00\x00\x00\xff" + data + struct.pack("<II", zlib.crc32(whole) & 0xFFFFFFFF, len(whole) & 0xFFFFFFFF)
 
     @staticmethod
     def _offsets(lines):
@@ -260,6 +286,8 @@ def snapshot(fx, d, fmt, tmp_sig):
         dm = os.stat(os.path.join(d, DOC)).st_mtime_ns
         if sz in fx.doc_sizes:
             res["doc"] = fx.doc_sizes[sz]
+            if res["doc"] == "full" and _byte_at(os.path.join(d, DOC), fx.flip_doc_pos) != fx.X[fx.flip_doc_pos : fx.flip_doc_pos + 1]:
+                res["doc"] = "flip"
         elif sz < fx.last_start:
             res["doc"] = "mid"
         elif sz < len(fx.X):
@@ -275,6 +303,8 @@ def snapshot(fx, d, fmt, tmp_sig):
         try:
             sz = os.stat(os.path.join(d, arch_name(fmt))).st_size
             res["arch"] = fx.arch_sizes[fmt].get(sz, "odd")
+            if fmt == "gz" and res["arch"] == "G" and _byte_at(os.path.join(d, arch_name(fmt)), fx.flip_arch_pos) != fx.arch["gz"]["G"][fx.flip_arch_pos : fx.flip_arch_pos + 1]:
+                res["arch"] = "C"
         except FileNotFoundError:
             res["arch"] = ABSENT
     try:
@@ -301,6 +331,12 @@ def snapshot(fx, d, fmt, tmp_sig):
     else:
         res["tgt"] = res["arch"]
     return res
+
+
+def _byte_at(path, pos):
+    with open(path, "rb") as f:
+        f.seek(pos)
+        return f.read(1)
 
 
 def tmp_signature(d, fmt):
@@ -726,7 +762,8 @@ def run_once(fx, d, p, script, crash=None, workdir=None):
         base_url=None if p["net"] == "nourl" else ("http://corpora.example.org/c14/" if p.get("slash", True) else "https://corpora.example.org/c14"),
         number_of_documents=N_LINES if p["cons"] else N_LINES + 1,
         compressed_size_in_bytes=(len(fx.arch[fmt]["G"]) if p["cDecl"] else None) if fmt != "none" else None,
-        uncompressed_size_in_bytes=((real_u if p["cons"] else real_u + 7) if p["uDecl"] else None),
+        # inconsistent declaration: the published archive expands to less (default) or to more than the track declares
+        uncompressed_size_in_bytes=((real_u if p["cons"] else (real_u - 7 if p.get("bigger") else real_u + 7)) if p["uDecl"] else None),
     )
     prep = loader.DocumentSetPreparator("c14", loader.Downloader(offline=p["net"] == "offline", test_mode=bool(p.get("testMode"))), loader.Decompressor())
     pool = FakePool(fx, fmt, script)
